@@ -125,3 +125,6 @@ EXTRA = {
 }
 for k, extra in EXTRA.items():
     CLAIMED[k]['text'] += extra
+# Engine E10 (DESIGN.md 2.3): coverage-guided campaigns in the thorough tier.
+for k in ["C01","C02","C03","C04","C05","C06","C10","C11","C12","C13","C14","C15","C16","C18","C19","C20"]:
+    CLAIMED[k]['text'] += " Thorough tier also: coverage-guided libFuzzer campaigns (16 jobs, fixed number of runs) that mutate the choice bytes of the same proptest strategies and use the same oracle; crashes are re-generated in-process, shrunk and written as ordinary replays."
